@@ -193,7 +193,7 @@ pub fn generate(seed: u64) -> Sc {
         }
     }
     // The order in which the server lists the observations is a matter of format.
-    format.obs_order = r.weighted(&[14, 2, 2, 2]) as u8;
+    format.obs_order = r.weighted(&[14, 2, 2, 2, 2]) as u8;
     format.order_seed = r.next_u64();
     Sc {
         cal,
@@ -312,6 +312,7 @@ impl Engine for C12 {
             1 => st.bump("probe.observations_listed_descending"),
             2 => st.bump("probe.observations_listed_late"),
             3 => st.bump("probe.observations_listed_twice"),
+            4 => st.bump("probe.observations_outside_the_requested_range_listed"),
             _ => {}
         }
         let mut processes: Vec<Vec<time::Date>> = sc.lookups.iter().map(|ds| vec![pd(ds)]).collect();
@@ -980,6 +981,7 @@ impl Engine for C12 {
             "probe.observations_listed_descending",
             "probe.observations_listed_late",
             "probe.observations_listed_twice",
+            "probe.observations_outside_the_requested_range_listed",
         ]
     }
 }
